@@ -3,7 +3,8 @@
 # confirms a sub-agent's seeded change in its scratch worktree (moved to /repo's current HEAD) and stores it under /verif/seeded/
 set -u
 P="$1"; K="$2"; shift 2
-WT=/tmp/wt-$P
+WT=${WTPREFIX:-/tmp/wt-}$P
+TAG=${SEEDTAG:-}
 HEAD=$(git -C /repo rev-parse HEAD)
 cd "$WT" || exit 9
 git checkout -q -- . ; git checkout -q --detach "$HEAD" || exit 9
@@ -17,17 +18,17 @@ mut_demo=$(timeout 300 /venv/bin/python demo_$K.py >/dev/null 2>&1; echo $?)
 git checkout -q -- . ; git reset -q 2>/dev/null
 echo "$P/$K: suite-with-change: $suite | demo exit with change: $mut_demo | demo exit without: $base_demo"
 if [[ "$suite" == *"52 passed"* && "$mut_demo" != "0" && "$base_demo" == "0" ]]; then
-  S=/verif/seeded/$P-$K; mkdir -p $S
+  S=/verif/seeded/$P-$TAG$K; mkdir -p $S
   cp /tmp/seed_patch_${P}_${K}.diff $S/patch.diff; cp $WT/demo_$K.py $S/demo.py
-  python3 - "$P" "$K" "$HEAD" "$suite" "$mut_demo" "$base_demo" "$WT/mut_$K.txt" "$@" <<'PY'
+  python3 - "$P" "$K" "$HEAD" "$suite" "$mut_demo" "$base_demo" "$WT/mut_$K.txt" "$S" "$WT" "$@" <<'PY'
 import json, sys
-P, K, HEAD, suite, md, bd, txt = sys.argv[1:8]
-caught = sys.argv[8:]
+P, K, HEAD, suite, md, bd, txt, S, WT = sys.argv[1:10]
+caught = sys.argv[10:]
 json.dump({'property': P, 'breaks': open(txt).read().strip(), 'needs_to_manifest': 'see "breaks" (written by the independent sub-agent that produced the change)',
            'confirmed_at_repo_commit': HEAD,
-           'what_i_ran': [f'in scratch worktree /tmp/wt-{P} at {HEAD[:7]}: git apply patch.diff; /venv/bin/python -m pytest -q -p no:cacheprovider -> {suite}',
+           'what_i_ran': [f'in scratch worktree {WT} at {HEAD[:7]}: git apply patch.diff; /venv/bin/python -m pytest -q -p no:cacheprovider -> {suite}',
                           f'/venv/bin/python demo.py with the change -> exit {md}', f'/venv/bin/python demo.py without the change -> exit {bd}'],
-           'caught_by': caught}, open(f'/verif/seeded/{P}-{K}/meta.json', 'w'), indent=1)
+           'caught_by': caught}, open(f'{S}/meta.json', 'w'), indent=1)
 PY
   echo "  kept as $S"
 else
